@@ -8,7 +8,7 @@
 // op:   scn cause=<capp|sapp|idle|kalive|hsdead|hsstall|reset|fatalc|fatals|tclosec|tcloses|dialcancel|cappx|vn|kaprobe>
 //
 //	timing=<0|1|2> cb=<set|-> sb=<set|-> idle=<ms> sidle=<ms> ka=<ms> kaside=<c|s|b> drop=<k> rtt=<ms> code=<n> at=<ms>
-//	ips=<bytes> ut=<0|1> vm=<0|1|2> pm=<0|1>
+//	ips=<bytes> ut=<0|1> vm=<0|1|2> pm=<0|1> su=<0|1|2> lc=<0|1> cc=<0|1|2|3>
 //
 // ut=1 dials through a UTransport (nil QUICSpec: UTransport.doDial instead of Transport.doDial).
 // cause=vn: the server speaks only QUIC v1, the client offers v2 first, so the first connection is closed "for
@@ -17,6 +17,13 @@
 // instant `at`, vm=2 never cancels.
 // cause=kaprobe: as kalive, and the client probes a second path (Conn.AddPath + Path.Probe) on which nothing
 // (pm=0) or nothing from the server (pm=1) is delivered, starting `at` after the trigger.
+//
+// su=1: the server is made by quic.Listen (a single-use transport the application never sees, so nobody calls its
+// Close), su=2: and the client dials with quic.Dial (single-use too). lc=1: the listener is closed while the
+// connection is established, before the cause; otherwise after the connection is gone. Both sockets count the
+// ReadFrom calls in flight: rd.s / rd.c = is somebody still reading from the socket when everything is over.
+// cc: Transport.ConnContext of the server: 0 unset, 1 returns a context derived from the one it is given, 2 / 3 return
+// a context that is NOT derived from it (values only / with its own cancel function).
 //
 // result: key=value fields, see report().
 package closee
@@ -217,8 +224,25 @@ func (rn *runner) GenOp(r *vh.Rand, i int) string {
 			kaside = []string{"c", "b", "s"}[r.Pick(35, 15, 50)]
 		}
 	}
-	return fmt.Sprintf("scn cause=%s timing=%d cb=%s sb=%s idle=%d sidle=%d ka=%d kaside=%s drop=%d rtt=%d code=%d at=%d ips=%d ut=%d vm=%d pm=%d",
-		cause, timing, cb, sb, idle, sidle, ka, kaside, drop, rtt, code, at, ips, ut, vm, pm)
+	// who owns the transports: the application (su=0) or quic.Listen / quic.Dial (single-use transports)
+	su, lc, cc := 0, 0, 0
+	switch cause {
+	case "capp", "sapp", "idle", "fatalc", "fatals", "kalive", "hsdead", "dialcancel":
+		su = r.Pick(55, 30, 15)
+	case "cappx", "vn", "kaprobe", "hsstall":
+		su = r.Pick(70, 30)
+	}
+	if su == 2 {
+		ut = 0
+	}
+	if su >= 1 && r.Chance(60) {
+		lc = 1
+	}
+	if su == 0 && r.Chance(45) {
+		cc = 1 + r.Pick(30, 45, 25)
+	}
+	return fmt.Sprintf("scn cause=%s timing=%d cb=%s sb=%s idle=%d sidle=%d ka=%d kaside=%s drop=%d rtt=%d code=%d at=%d ips=%d ut=%d vm=%d pm=%d su=%d lc=%d cc=%d",
+		cause, timing, cb, sb, idle, sidle, ka, kaside, drop, rtt, code, at, ips, ut, vm, pm, su, lc, cc)
 }
 
 // ---------------------------------------------------------------- scenario
@@ -286,6 +310,7 @@ type params struct {
 	at                             time.Duration
 	ips                            int
 	ut, vm, pm                     int
+	su, lc, cc                     int
 }
 
 func parseOp(op string) (p params, ok bool) {
@@ -308,7 +333,14 @@ func parseOp(op string) (p params, ok bool) {
 	}
 	p = params{cause: kv["cause"], timing: int(vh.Atoi64(kv["timing"])), cb: set("cb"), sb: set("sb"), idle: ms("idle"), sidle: ms("sidle"),
 		ka: ms("ka"), kaside: kv["kaside"], drop: int(vh.Atoi64(kv["drop"])), rtt: ms("rtt"), code: uint64(vh.Atoi64(kv["code"])), at: ms("at"), ips: int(vh.Atoi64(kv["ips"])),
-		ut: int(vh.Atoi64(kv["ut"])), vm: int(vh.Atoi64(kv["vm"])), pm: int(vh.Atoi64(kv["pm"]))}
+		ut: int(vh.Atoi64(kv["ut"])), vm: int(vh.Atoi64(kv["vm"])), pm: int(vh.Atoi64(kv["pm"])),
+		su: int(vh.Atoi64(kv["su"])), lc: int(vh.Atoi64(kv["lc"])), cc: int(vh.Atoi64(kv["cc"]))}
+	if p.su != 0 && (p.cause == "reset" || p.cause == "tclosec" || p.cause == "tcloses") {
+		return p, false // these causes act on a transport the application owns
+	}
+	if p.su == 2 && (p.cause == "cappx" || p.cause == "vn" || p.cause == "kaprobe" || p.ut == 1) {
+		return p, false
+	}
 	if p.cause == "" || p.idle == 0 || p.sidle == 0 || p.rtt == 0 {
 		return p, false
 	}
@@ -563,10 +595,43 @@ func runScenario(p params, res *result) {
 	env.Listener.Close()
 	env.ServerTr.Close()
 	env.Listener, env.ServerTr = nil, nil
+	stap := &tapConn{SimConn: env.ServerPC}
+	ctap := &tapConn{SimConn: env.ClientPC}
 	newServer := func() (*quic.Transport, *quic.Listener, error) {
+		if p.su >= 1 {
+			ln, err := quic.Listen(stap, e2e.ServerTLSConfig(), sconf)
+			if err != nil {
+				return nil, nil, err
+			}
+			return ln.VerifTransport(), ln, nil
+		}
 		tr := &quic.Transport{Conn: env.ServerPC, StatelessResetKey: &key}
+		switch p.cc {
+		case 1:
+			tr.ConnContext = func(ctx context.Context, _ *quic.ClientInfo) (context.Context, error) {
+				return context.WithValue(ctx, ctxKey{}, 1), nil
+			}
+		case 2:
+			tr.ConnContext = func(context.Context, *quic.ClientInfo) (context.Context, error) {
+				return context.WithValue(context.Background(), ctxKey{}, 2), nil
+			}
+		case 3:
+			tr.ConnContext = func(context.Context, *quic.ClientInfo) (context.Context, error) {
+				c, _ := context.WithCancelCause(context.WithValue(context.Background(), ctxKey{}, 3))
+				return c, nil
+			}
+		}
 		ln, err := tr.Listen(e2e.ServerTLSConfig(), sconf)
 		return tr, ln, err
+	}
+	// is somebody still reading from the sockets of the single-use transports?
+	addReaders := func() {
+		if p.su >= 1 {
+			res.add("rd.s", strconv.Itoa(int(stap.reading.Load())))
+		}
+		if p.su == 2 {
+			res.add("rd.c", strconv.Itoa(int(ctap.reading.Load())))
+		}
 	}
 	str, ln, err := newServer()
 	if err != nil {
@@ -659,7 +724,9 @@ func runScenario(p params, res *result) {
 	go func() {
 		var c *quic.Conn
 		var err error
-		if p.ut == 1 {
+		if p.su == 2 {
+			c, err = quic.Dial(dctx, ctap, e2e.ServerAddr, env.ClientTLS.Clone(), env.ClientCfg)
+		} else if p.ut == 1 {
 			c, err = (&quic.UTransport{Transport: env.ClientTr}).Dial(dctx, e2e.ServerAddr, env.ClientTLS.Clone(), env.ClientCfg)
 		} else {
 			c, err = env.Dial(dctx)
@@ -700,6 +767,8 @@ func runScenario(p params, res *result) {
 		res.add("rt.c", fmt.Sprintf("%d/%d", h, tk))
 		h, tk = str.VerifRouting()
 		res.add("rt.s", fmt.Sprintf("%d/%d", h, tk))
+		synctest.Wait()
+		addReaders()
 		return
 	}
 	cl.conn = conn
@@ -725,6 +794,8 @@ func runScenario(p params, res *result) {
 		res.add("rt.s", fmt.Sprintf("%d/%d", hs, ts))
 		bgCancel()
 		ln.Close()
+		synctest.Wait()
+		addReaders()
 	}
 
 	if p.cause == "cappx" {
@@ -777,16 +848,18 @@ func runScenario(p params, res *result) {
 		sv.watch()
 	}
 	// a second Accept stays blocked unless the listener ends
-	sv.calls["lnaccept"] = &callRes{}
-	sv.order = append(sv.order, "lnaccept")
-	go func() {
-		_, err := ln.Accept(bg)
-		at := quic.VerifMonoNow()
-		sv.mu.Lock()
-		cr := sv.calls["lnaccept"]
-		cr.err, cr.at, cr.done = err, at, true
-		sv.mu.Unlock()
-	}()
+	if p.lc == 0 {
+		sv.calls["lnaccept"] = &callRes{}
+		sv.order = append(sv.order, "lnaccept")
+		go func() {
+			_, err := ln.Accept(bg)
+			at := quic.VerifMonoNow()
+			sv.mu.Lock()
+			cr := sv.calls["lnaccept"]
+			cr.err, cr.at, cr.done = err, at, true
+			sv.mu.Unlock()
+		}()
+	}
 
 	if p.timing >= 1 && haveServer {
 		sctx, scancel := context.WithTimeout(bg, 20*time.Second)
@@ -835,6 +908,12 @@ func runScenario(p params, res *result) {
 		s.mu.Unlock()
 	}
 	res.add("pre", strconv.Itoa(pre))
+
+	// lc=1: the listener goes while the connection lives (established connections are unaffected)
+	if p.lc == 1 {
+		ln.Close()
+		synctest.Wait()
+	}
 
 	// ---- the cause
 	trig := quic.VerifMonoNow()
@@ -1007,6 +1086,10 @@ func runScenario(p params, res *result) {
 		calls, maxdt := fmtCalls(s)
 		res.add(s.name+".calls", calls)
 		res.add(s.name+".dt", strconv.FormatInt(maxdt, 10))
+		// the contexts of the connection's streams are cancelled with the same cause
+		if s.wstr != nil {
+			res.add(s.name+".sctx", quic.VerifCanonErr(context.Cause(s.wstr.Context())))
+		}
 		ist := s.conn.VerifIdleState()
 		res.add(s.name+".idle", idleFields(ist, at, t0))
 		// ghost for the idle start, from the endpoint's own sent-packet log: d1 = the first ack-eliciting
@@ -1034,6 +1117,20 @@ func runScenario(p params, res *result) {
 	}
 	finish()
 }
+
+// tapConn counts the ReadFrom calls in flight on a socket: a transport that is still listening always has one.
+type tapConn struct {
+	*simnet.SimConn
+	reading atomic.Int32
+}
+
+func (c *tapConn) ReadFrom(b []byte) (int, net.Addr, error) {
+	c.reading.Add(1)
+	defer c.reading.Add(-1)
+	return c.SimConn.ReadFrom(b)
+}
+
+type ctxKey struct{}
 
 // vnHold is how long the closing write of a connection that is being recreated is held in cause=vn, vm=0.
 const vnHold = time.Millisecond
